@@ -16,7 +16,8 @@ use ckb_types::{
 use log::{debug, error, log_enabled, trace, warn, Level};
 
 use super::super::{
-    peers::ProveRequest, prelude::*, LastState, LightClientProtocol, ProveState, Status, StatusCode,
+    check_total_difficulty_overflow, peers::ProveRequest, prelude::*, LastState,
+    LightClientProtocol, ProveState, Status, StatusCode,
 };
 
 pub(crate) struct SendLastStateProofProcess<'a> {
@@ -52,6 +53,7 @@ impl<'a> SendLastStateProofProcess<'a> {
         };
 
         let last_header: VerifiableHeader = self.message.last_header().to_entity().into();
+        return_if_failed!(check_total_difficulty_overflow(&last_header));
 
         // Update the last state if the response contains a new one.
         if !original_request.is_same_as(&last_header) {
@@ -79,6 +81,9 @@ impl<'a> SendLastStateProofProcess<'a> {
             .iter()
             .map(|header| header.to_entity().into())
             .collect::<Vec<VerifiableHeader>>();
+        for header in &headers {
+            return_if_failed!(check_total_difficulty_overflow(header));
+        }
         let last_n_blocks = self.protocol.last_n_blocks() as usize;
 
         trace!(
